@@ -28,6 +28,7 @@ import (
 	"os"
 	"os/exec"
 	"path/filepath"
+	"regexp"
 	"sort"
 	"strconv"
 	"strings"
@@ -122,19 +123,22 @@ func (a *storedAcc) visit(field string, value []byte) bool {
 	return true
 }
 
+// a document whose stored fields do not belong together is printed with body corruptBase+<body field>
+const corruptBase = 1000000000
+
 func (a *storedAcc) digest() (doc, bool) {
 	id, err1 := strconv.Atoi(a.m["_id"])
 	body, err2 := strconv.Atoi(a.m["body"])
 	if err1 != nil || err2 != nil {
-		return doc{-1, -1}, false
+		return doc{0, corruptBase}, false
 	}
 	want := storedOf(body)
 	if len(a.m) != len(want)+1 {
-		return doc{id, -body - 1000000}, false
+		return doc{id, corruptBase + body}, false
 	}
 	for k, v := range want {
 		if a.m[k] != v {
-			return doc{id, -body - 1000000}, false
+			return doc{id, corruptBase + body}, false
 		}
 	}
 	return doc{id, body}, true
@@ -255,6 +259,19 @@ func (t *tracer) readSeg(seg segment.Segment) []doc {
 		}
 		retried++
 		time.Sleep(20 * time.Millisecond)
+	}
+	if bad > 0 && workDir != "" {
+		// keep what was actually stored, for diagnosis
+		var sb strings.Builder
+		for i := uint64(0); i < n; i++ {
+			var acc storedAcc
+			err := seg.VisitStoredFields(i, acc.visit)
+			if _, ok := acc.digest(); !ok || err != nil {
+				fmt.Fprintf(&sb, "doc %d err=%v fields=%q\n", i, err, acc.m)
+			}
+		}
+		corruptDumps++
+		_ = os.WriteFile(filepath.Join(workDir, fmt.Sprintf("c01_corrupt_%d_%d.txt", os.Getpid(), corruptDumps)), []byte(sb.String()), 0o644)
 	}
 	t.mu.Lock()
 	t.cache[seg] = ds
@@ -392,6 +409,8 @@ type inflight struct {
 }
 
 var cur *caseState
+var workDir string
+var corruptDumps int
 var caseNo int
 
 func closeCase(out func(string, string)) {
@@ -535,10 +554,10 @@ func emitEvents(out func(string, string)) {
 				}
 			}
 			if idx < 0 {
-				out(fmt.Sprintf("intro %d %d seen=0 ?", ev.epoch, newSid), phys)
+				out(fmt.Sprintf("intro %d %d seen=0 ? cfg=%s", ev.epoch, newSid, cur.cfg), phys)
 			} else {
 				cur.inflight[idx].used = true
-				out(fmt.Sprintf("intro %d %d seen=%d %s", ev.epoch, newSid, cur.inflight[idx].seen, cur.inflight[idx].ops), phys)
+				out(fmt.Sprintf("intro %d %d seen=%d %s cfg=%s", ev.epoch, newSid, cur.inflight[idx].seen, cur.inflight[idx].ops, cur.cfg), phys)
 			}
 		case "introducePersist":
 			var sb strings.Builder
@@ -548,9 +567,10 @@ func emitEvents(out func(string, string)) {
 					fmt.Fprintf(&sb, " %d[%s]", s.sid, docsString(s.docs, ","))
 				}
 			}
+			fmt.Fprintf(&sb, " cfg=%s", cur.cfg)
 			out(sb.String(), phys)
 		case "introduceMerge":
-			out(fmt.Sprintf("merge %d %s", ev.epoch, phys), phys)
+			out(fmt.Sprintf("merge %d %s cfg=%s", ev.epoch, phys, cur.cfg), phys)
 		default:
 			out(fmt.Sprintf("other %d %s %s", ev.epoch, ev.creator, phys), phys)
 		}
@@ -762,11 +782,13 @@ func execReal(line string, out func(string, string), st sink, work string) {
 	}
 }
 
+var corruptRe = regexp.MustCompile(`[.=;]1[0-9]{9}\b`)
+
 // faultyView: the reader could not deliver stored fields (error, panic, or a document whose stored fields do not
 // belong together)
 func faultyView(v string) bool {
-	return strings.HasPrefix(v, "err") || strings.HasPrefix(v, "panic") || strings.Contains(v, ".-") ||
-		strings.Contains(v, "wrong-id") || strings.Contains(v, "-1.")
+	return strings.HasPrefix(v, "err") || strings.HasPrefix(v, "panic") || corruptRe.MatchString(v) ||
+		strings.Contains(v, "wrong-id")
 }
 
 // ---------------------------------------------------------------- process isolation
@@ -902,6 +924,7 @@ func (p printSink) Case(key string, nt bool) {
 }
 
 func childMain(work string) {
+	workDir = work
 	index.SetVerifTrace(tr.trace)
 	in := bufio.NewScanner(os.Stdin)
 	in.Buffer(make([]byte, 1<<20), 1<<28)
